@@ -2,7 +2,10 @@ module verifharness
 
 go 1.20
 
-require github.com/go-kid/ioc v0.0.0
+require (
+	github.com/go-kid/ioc v0.0.0
+	github.com/pkg/errors v0.9.1
+)
 
 require (
 	github.com/expr-lang/expr v1.16.9 // indirect
@@ -19,7 +22,6 @@ require (
 	github.com/magiconair/properties v1.8.7 // indirect
 	github.com/mitchellh/mapstructure v1.5.0 // indirect
 	github.com/pelletier/go-toml/v2 v2.2.2 // indirect
-	github.com/pkg/errors v0.9.1 // indirect
 	github.com/sagikazarmark/slog-shim v0.1.0 // indirect
 	github.com/samber/lo v1.46.0 // indirect
 	github.com/spf13/afero v1.11.0 // indirect
